@@ -331,7 +331,8 @@ where
                     } else if pop_idx - 1 < spans.len() {
                         Span::new(spans[pop_idx - 1].start(), spans[spans.len() - 1].end())
                     } else {
-                        Span::new(spans[spans.len() - 1].start(), spans[spans.len() - 1].end())
+                        // An empty production: a zero-length span where the previous symbol ends.
+                        Span::new(spans[spans.len() - 1].end(), spans[spans.len() - 1].end())
                     };
                     spans.truncate(pop_idx - 1);
                     spans.push(span);
@@ -446,8 +447,10 @@ where
                                     spans_uw[spans_uw.len() - 1].end(),
                                 )
                             } else {
+                                // An empty production: a zero-length span where the previous
+                                // symbol ends.
                                 Span::new(
-                                    spans_uw[spans_uw.len() - 1].start(),
+                                    spans_uw[spans_uw.len() - 1].end(),
                                     spans_uw[spans_uw.len() - 1].end(),
                                 )
                             };
